@@ -392,3 +392,23 @@ prop('C19',
      level_note='Trusted: Lean kernel, standard axioms, harness. Modelled not verified: TreeMatcher (an Earley parse over tree children), unicode is_id_continue.',
      technique='Lean 4 composition theorem + model of the text-assembly loop; round-trip differential testing on the supported grammar class',
      design_ref='DESIGN.md §5 C19')
+
+
+# ---- streams added while strengthening against the fourth round of seeded changes (DESIGN.md §11.3); appended to the rule texts above
+_ROUND4 = {
+    'C02': 'Spaced stream: inputs whose tokens are separated by ignored blanks and newlines; the line, column and pos_in_stream of every LALR error (UnexpectedToken, UnexpectedCharacters, UnexpectedEOF with its $END token) are compared with the coordinates computed from the text.',
+    'C08': 'Spaced stream: the error token of every LALR failure over blank- and newline-separated inputs carries the coordinates of its first character in the text (end coordinates one past its last).',
+    'C03': 'Corpus: alternatives of three and more symbols whose names run together when joined by "_" (helper names of the CYK normal form), aliases on such alternatives; replay of fixed finding F30 (a terminal kept by a ! template must still be filtered in its siblings).',
+    'C05': 'Lattice-level priority stream: terminals that may contain the ignored blank, dynamic and dynamic_complete; the chosen derivation (with the spans of its tokens) must be among the lattice derivations and of optimal priority; choose() of the Lean Choice model is run on the families of the root.',
+    'C06': 'Optional-tail terminals (a terminal with an optional suffix that the next terminal could also match), every token of every derivation under dynamic_complete + explicit ambiguity; meta of ?-inlined rules with filtered brackets.',
+    'C07': 'Join-collision shape: terminals whose names or patterns coincide after lark joins anonymous literal names, so that a wrong merge changes which terminal wins.',
+    'C09': 'Language comparison (accept/reject only) on EBNF pairs whose expansion is cyclic, where the tree comparison does not apply.',
+    'C10': 'Stress threads call scan()/lex() concurrently with parse() on the shared instance.',
+    'C12': 'A grammar whose only difference between two builds is a regex flag on one terminal (and the g_regex_flags option) must not share a cache file.',
+    'C13': 'Lexer-driven forks on an immutable copy: feed_eof on as_immutable() copies must not disturb the original and must agree with the stepper.',
+    'C14': 'Grammars with several start rules; the contextual lexer is compared per start symbol.',
+    'C16': 'Imported grammars with namespaced rule and terminal callbacks (lib__rule, LIB__TERM) in every transformer entry point.',
+    'C17': 'Templates whose body carries a priority, instantiated from two import paths (diamond); under LALR only construction is compared where the tie is name-dependent.',
+}
+for _pid, _txt in _ROUND4.items():
+    PROPS[_pid]['rule'] = PROPS[_pid]['rule'].rstrip() + ' ' + _txt
